@@ -69,6 +69,58 @@ pub fn universe(thorough: bool) -> Vec<V> {
     u
 }
 
+/// every value up to a size bound over a small atom set (lists up to 2 / 3 elements, maps over keys a, b, c in every key order)
+pub fn generated_universe(thorough: bool) -> Vec<V> {
+    let atoms = vec![i(0), i(1), i(-1), i(2), i(i64::MAX), f(0.0), f(-0.0), f(1.0), f(0.5), f(1e308), s(""), s("a"), s("b"), s("ab"), s("A"), s("1"), V::Bool(true), V::Bool(false), V::Null];
+    let small = vec![i(1), i(2), f(1.0), s("a"), s("1"), V::Bool(true), V::Null];
+    let tiny = vec![i(1), s("a"), V::Null, l(vec![i(1)])];
+    let mut u = atoms.clone();
+    u.push(l(vec![]));
+    let mut elems = small.clone();
+    elems.push(l(vec![i(1)]));
+    elems.push(l(vec![]));
+    elems.push(m(vec![("a", i(1))]));
+    for a in &elems {
+        u.push(l(vec![a.clone()]));
+        for b in &elems {
+            u.push(l(vec![a.clone(), b.clone()]));
+            if thorough {
+                for c in &small {
+                    u.push(l(vec![a.clone(), b.clone(), c.clone()]));
+                }
+            }
+        }
+    }
+    u.push(m(vec![]));
+    let keys = ["a", "b", "c"];
+    for (ka, k1) in keys.iter().enumerate() {
+        for a in &tiny {
+            u.push(m(vec![(k1, a.clone())]));
+            for (kb, k2) in keys.iter().enumerate() {
+                if ka == kb {
+                    continue;
+                }
+                for b in &tiny {
+                    u.push(m(vec![(k1, a.clone()), (k2, b.clone())]));
+                    if thorough {
+                        for (kc, k3) in keys.iter().enumerate() {
+                            if kc == ka || kc == kb {
+                                continue;
+                            }
+                            for c in [i(1), s("a")] {
+                                u.push(m(vec![(k1, a.clone()), (k2, b.clone()), (k3, c.clone())]));
+                            }
+                        }
+                    }
+                }
+            }
+        }
+    }
+    u.push(m(vec![("a", m(vec![("a", i(1))]))]));
+    u.push(m(vec![("a", m(vec![("a", i(2))]))]));
+    u
+}
+
 const OPS: [(BinOp, bool, &str); 6] = [
     (BinOp::Eq, false, "eq"),
     (BinOp::Eq, true, "ne"),
@@ -179,6 +231,20 @@ fn check_pair(v: &V, w: &V, form: &str, acc: &mut Acc) {
             }
         }
     }
+    // a map and a scalar are values of different types: nothing holds
+    if (matches!(v, V::Map(_)) && scalar(w)) || (scalar(v) && matches!(w, V::Map(_))) {
+        for n in ["peq", "pne", "plt", "ple", "pgt", "pge"] {
+            if pass(n) {
+                bad("different-types-satisfy-map-scalar", format!("{} PASSes for a map and a scalar", n));
+            }
+        }
+    }
+    // lists compare element-wise in order (two loaded lists: the query form)
+    if let (V::List(_), V::List(_), "query") = (v, w, form) {
+        if pass("peq") != struct_eq(v, w) {
+            bad("list-eq", format!("== should be {}", struct_eq(v, w)));
+        }
+    }
     // prefix not: operator-level equivalents (C03 cross-check on the algebra universe)
     for (a, b) in [("neq", "pne"), ("nne", "peq")] {
         if st(a) != st(b) {
@@ -226,6 +292,27 @@ pub fn run(tier: &str) -> i32 {
     rep.states += cases.len() as u64;
     rep.transitions += cases.len() as u64 * 12;
     let mut acc = res.acc;
+
+    // ---- generated universe: every value of bounded size over a small atom set, all ordered pairs, both right-hand-side
+    //      forms, the six operators x prefix not, against the reference interpreter (a complete oracle, also for list operands)
+    let g = generated_universe(thorough);
+    let gcases = g.len() * g.len() * 2;
+    let gr = crate::par::run(gcases, rep.seed as u64, crate::par::deadline_secs(if thorough { 3000 } else { 40 }), Acc::new, |k, acc| {
+        let (a, b, form) = (k / 2 / g.len(), (k / 2) % g.len(), k % 2);
+        let (v, w) = (&g[a], &g[b]);
+        if form == 0 && !w.guard_expressible() {
+            return;
+        }
+        check_pair(v, w, if form == 0 { "lit" } else { "query" }, acc);
+    }, Acc::merge);
+    rep.states += gcases as u64;
+    rep.transitions += gcases as u64 * 12;
+    if gr.capped {
+        rep.exhaustive = false;
+        rep.caps_hit.push(format!("generated-universe pairs: wall-clock cap; {} of {} states done", gr.done, gcases));
+    }
+    rep.extra.insert("generated_universe_size".into(), json!(g.len()));
+    acc = Acc::merge(acc, gr.acc);
 
     // ---- symmetry / reflexivity of == (both forms), needs two evaluations per unordered pair
     let mut sym_states = 0u64;
